@@ -202,6 +202,8 @@ def run(ck, facts, tier):
                     ok = cel.vkey(a) == cel.vkey(Sym("ctor", "Ok", Sym("ctor", "F64", Poly.const(0)))) and \
                         cel.vkey(b) == cel.vkey(Sym("ctor", "Ok", Sym("ctor", "F64", Poly.atom("ib") * Poly.atom("cv").inv())))
                 ck.check(r3, key, ok, "index value is not [date < first node] 0 | base / curve value: %s" % cel.vfmt(res)[:400], where, sample="x < first_key: 0 ; else ib / curve(date)")
+    from rules import deps
+    deps.include_ad(ck, facts, tier)
     ck.not_decided += ["gradients/Hessians of looked-up values as numbers (they follow from R11.1 being generic over the number type + C01/C02)",
                        "which interval a date falls in (C11's undecided index_left)"]
     ck.trusted += ["lib/cel.py Seq model of iterator pipelines (into_iter/enumerate/map/collect)"]
